@@ -7,13 +7,15 @@ from harness.gen import sgdata as gen_sg
 from harness.gen.sgdata import comp, dec
 
 ID = "C02"
-LEAN_TARGETS = ["ChmpyVerif.Props.C02"]
+LEAN_TARGETS = ["ChmpyVerif.Props.C02", "ChmpyVerif.Props.C02Shelx"]
 T = "ChmpyVerif.Props.C02."
 THEOREMS = [T + n for n in (
     "entry_checked", "sg_nodup", "sg_symops_sorted", "sg_has_identity", "sg_closed", "sg_inverses", "sg_packable",
     "sg_centro_flag_iff", "sg_dup_same_number", "sg_lookup_full", "sg_lookup_reduced", "sg_construct", "table_size")] + [
     "ChmpyVerif.SG.closed_of_cert", "ChmpyVerif.SG.compose_assoc", "ChmpyVerif.SG.decode_encode_of_packable",
     "ChmpyVerif.SG.inverses_of_cert", "ChmpyVerif.Gen.sgChunks_ok", "ChmpyVerif.Gen.sgTable_covered"]
+# the SYMM cards of a SHELX file never list the identity: the expansion supplies it
+THEOREMS += ["ChmpyVerif.Props.C02." + n for n in ("implicit_identity_members", "expanded_without_identity")]
 TRUSTED = [
     "translator harness/gen/sgdata.py (sgdata.json, SG_DEFAULT_SETTING_CHOICE, centering_to_latt, LATTICE_TYPE_TRANSLATIONS -> Gen/SG*.lean); "
     "its closure certificates are untrusted hints that the kernel re-checks",
